@@ -13,7 +13,12 @@ for pid in CLAIMED:
     if hasattr(m, "gen_files"):
         ctx = core.Ctx(m, "quick", 0)
         ctx.scratch, ctx.stage_info = scratch, info
-        for rel, content in m.gen_files(ctx).items():
+        try:
+            files = m.gen_files(ctx)
+        except Exception as e:       # the check of that property reports it; setup goes on
+            print("translator of %s failed (its check will report it): %s" % (pid, str(e)[:300]))
+            continue
+        for rel, content in files.items():
             core.write_if_changed(os.path.join(core.COQ, rel), content)
             print("generated", rel)
 core.coq_project_refresh()
